@@ -161,7 +161,17 @@ func c05Run(c *fw.Ctx, idx int) {
 		codecNoise(c)
 		if c.R.Bool() {
 			var e0 error
-			if c.Guard("panic", func() { early, e0 = wkt.NewEncoder().Encode(t) }) {
+			if c.Guard("panic", func() {
+				switch c.R.Intn(3) {
+				case 0:
+					early, e0 = wkt.NewEncoder().Encode(t)
+				case 1:
+					// -1 is the documented default of the digits option: no limit
+					early, e0 = wkt.Marshal(t, wkt.EncodeOptionWithMaxDecimalDigits(-1))
+				default:
+					early, e0 = wkt.NewEncoder(wkt.EncodeOptionWithMaxDecimalDigits(-1)).Encode(t)
+				}
+			}) {
 				return
 			}
 			if e0 != nil {
@@ -173,7 +183,7 @@ func c05Run(c *fw.Ctx, idx int) {
 		return
 	}
 	if early != "" && err == nil && early != text {
-		c.Fail("encoder-differs", "right after calls with other options NewEncoder().Encode gave %s, wkt.Marshal gives %s", clipStr(early, 300), clipStr(text, 300))
+		c.Fail("encoder-differs", "right after calls with other options NewEncoder().Encode / Marshal with a digit limit of -1 (none) gave %s, wkt.Marshal gives %s", clipStr(early, 300), clipStr(text, 300))
 		return
 	}
 	c.Eval(1)
